@@ -71,7 +71,7 @@ let parse_item s =
   | "E" :: nm :: f :: _ -> Some (IExpr (parse_nm nm, nat_of_int (int_of_string f)))
   | "F" :: ty :: e -> Some (IFunc (parse_ty ty, fst (parse_expr e)))
   | "G" :: _ | "H" :: _ -> Some IGFunc
-  | "Oi" :: _ -> Some (IOther OImport)
+  | "Oi" :: _ | "Oe" :: _ -> Some (IOther OImport)   (* Oe: import of a function linked in an earlier round *)
   | "Op" :: _ -> Some (IOther OProto)
   | "Of" :: d :: _ | "Ox" :: d :: _ -> Some (IOther (OAlias (nat_of_int (int_of_string d))))
   | _ -> failwith ("bad item: " ^ s)
